@@ -382,9 +382,12 @@ def _dev(unit, ctx):
     cfg, _d = _plan(ctx.tier, ctx.seed)[unit["cfg"]]
     plat = cfg["platform"]
     base = G.bases(ctx.seed)[unit["base"]]
-    alph = G.field_alphabets(ctx.seed, plat, groups=True)
-    alph["seq"] = [0, 10, 4294967295]
     fields = tuple(unit["fields"])
+    # quick tier: the NX-OS -> IOS direction explores two deviating fields over the reduced
+    # alphabets (the split of multi-operand eq only exists in the IOS -> NX-OS direction)
+    small = ctx.tier == "quick" and plat == "nxos" and len(fields) >= 2
+    alph = G.field_alphabets(ctx.seed, plat, groups=True, small=small)
+    alph["seq"] = [0, 10, 4294967295]
     pools = [[v for v in alph[f] if v != getattr(base, f)] for f in fields]
     n = 0
     for combo in product(*pools):
